@@ -125,11 +125,15 @@ class SuperNetCombiner(nn.Module):
         :rtype: Dict[str, Any]
         """
         with torch.no_grad():
+            # sample for reporting only: the coefficients used by forward/cost are left untouched
+            prev_theta_alpha = self.theta_alpha
             self.sample_alpha()
+            theta_alpha = self.theta_alpha
+            self.theta_alpha = prev_theta_alpha
         res = {"supernet_branches": {}}
         for i in range(self.n_branches):
             res["supernet_branches"][f"branch_{i}"] = {}
-            res["supernet_branches"][f"branch_{i}"]['alpha'] = self.theta_alpha[i].item()
+            res["supernet_branches"][f"branch_{i}"]['alpha'] = theta_alpha[i].item()
         return res
 
     @property
